@@ -190,6 +190,9 @@ def run(model: RepoModel, rep, tier: str):
     rep.rule("C14.R5", "what a file is (project code or extern mock code) is decided by its path relative to the workspace, never by a substring "
                        "of its absolute path: otherwise the result depends on where the workspace happens to be located", 1)
     _r5_location_independence(model, rep)
+    rep.rule("C14.R6", "a sort that fixes the order of a set of value-hashed objects tells its members apart: the key reads every field the "
+                       "class hashes on (except fields that are constant within one such set)", 1)
+    _r6_sort_keys_discriminate(model, rep)
     rep.rule("C14.R3", "no clock, pid, random or object identity value reaches an identifier or a stored result", min_instances=2)
 
     # ------------------------------------------------------------------ R1
@@ -682,6 +685,62 @@ def check_path_prefix_tests(model: RepoModel, rep, RID: str) -> int:
                                   f"directories are skipped or classified then depends on where the workspace is and what it is called")
     return n
 
+
+
+# fields of a value-hashed class that are the same for all members of one set that gets sorted (confirmed by reading the producers)
+CONSTANT_WITHIN_SET = {
+    "Argument": {"position", "name"},     # an argument set holds the states of ONE argument: same position and name, different space index
+    "Parameter": {"method_id", "name"},   # the parameters of ONE callee; symbol_id is the declaration's id, the name is a function of it
+}
+
+
+def _r6_sort_keys_discriminate(model: RepoModel, rep):
+    """sorted(S, key=lambda a: (...)) is how set iteration order is made independent of the hash seed (R2 accepts it).  It only works when
+    the key separates any two members: sorted() is stable, so members with equal keys stay in set order."""
+    cs = model.module("common_structs.py")
+    hashed = {}
+    for cname, ci in cs.classes.items():
+        h = ci.methods.get("__hash__")
+        if h is None:
+            continue
+        fields = {x.attr for x in ast.walk(h.node) if isinstance(x, ast.Attribute) and isinstance(x.value, ast.Name) and x.value.id == "self"}
+        allf = {x.attr for mth in ci.methods.values() for x in ast.walk(mth.node) if isinstance(x, ast.Attribute) and isinstance(x.value, ast.Name) and x.value.id == "self"}
+        allf |= {t.target.id for t in ci.node.body if isinstance(t, ast.AnnAssign) and isinstance(t.target, ast.Name)}
+        if fields:
+            hashed[cname] = (fields, allf)
+    n = 0
+    for rel, m in sorted(model.modules.items()):
+        if not (rel.startswith(("core/", "taint/", "basics/")) or rel == "common_structs.py"):
+            continue
+        for f in m.all_funcs():
+            for c in walk_no_nested(f.node):
+                if not (isinstance(c, ast.Call) and call_name(c) == "sorted" and c.args):
+                    continue
+                kk = next((k.value for k in c.keywords if k.arg == "key"), None)
+                if not (isinstance(kk, ast.Lambda) and kk.args.args):
+                    continue
+                a = kk.args.args[0].arg
+                attrs = {x.attr for x in ast.walk(kk.body) if isinstance(x, ast.Attribute) and isinstance(x.value, ast.Name) and x.value.id == a}
+                if not attrs or any(isinstance(x, ast.Name) and x.id == a and not any(isinstance(p_, ast.Attribute) and p_.value is x for p_ in ast.walk(kk.body))
+                                    for x in ast.walk(kk.body)):
+                    continue   # the member itself is part of the key
+                cands = {cn: hf for cn, (hf, allf) in hashed.items() if attrs <= allf}
+                if not cands:
+                    continue
+                n += 1
+                key = f"{f.ref}::`sorted({norm(c.args[0])}, key={norm(kk)})`"
+                ok = [cn for cn, hf in cands.items() if (hf - CONSTANT_WITHIN_SET.get(cn, set())) <= attrs]
+                if ok:
+                    rep.holds("C14.R6", key, rel, c.lineno, f"the key reads the fields {sorted(attrs)}; members are {'/'.join(ok)} objects hashed on "
+                                                            f"{sorted(cands[ok[0]])} (constant within one set: {sorted(CONSTANT_WITHIN_SET.get(ok[0], set()))})")
+                else:
+                    cn = sorted(cands)[0]
+                    missing = sorted((cands[cn] - CONSTANT_WITHIN_SET.get(cn, set())) - attrs)
+                    rep.violation("C14.R6", key, rel, c.lineno,
+                                  f"{f.ref} orders a set of {'/'.join(sorted(cands))} objects by {sorted(attrs)} only; the class hashes on "
+                                  f"{sorted(cands[cn])} and the key does not read {missing}: members that differ only there tie, sorted() is "
+                                  f"stable, so they keep the set's iteration order, which depends on PYTHONHASHSEED")
+    rep.analysed["sort keys over value-hashed objects"] = n
 
 def _r5_location_independence(model: RepoModel, rep):
     check_path_prefix_tests(model, rep, "C14.R5")
